@@ -98,7 +98,9 @@ enum Comment {
 enum Text {
     #[regex(r#"[^\\"]+"#)]
     Text,
-    #[regex(r"\\.")]
+    // ASCII only: `.` would match a single *byte* of a multi-byte character and the slice of
+    // the match would then not be valid UTF-8
+    #[regex(r"\\[\x00-\x7F]")]
     EscapeCharacter,
     #[regex(r"\\u\{[0-9a-fA-F][_0-9a-fA-F]*\}")]
     Codepoint,
